@@ -80,6 +80,11 @@ class IncomingBall:
         """Return target."""
         return self._target
 
+    @property
+    def has_arrived(self):
+        """Return true if the ball arrived at the target."""
+        return self._state == "arrived"
+
     def did_not_arrive(self):
         """Ball did not arrive."""
         if not self._state == "left_device":
